@@ -301,6 +301,69 @@ def caller_arrays_scenario():
     return outv, n
 
 
+def registry_scenario():
+    """plugin registries are class-level state: constructing / updating / cloning instances with models given as *class objects* (built-in
+    classes, a run-time abstract class, a run-time subclass that shadows a built-in name) never adds, removes or re-points an entry, and
+    two instances built from equal arguments (a model *name*) stay equal whatever a third instance was built with"""
+    realfuzz.init()
+    viol, n = [], 0
+    from hmf.mass_function import fitting_functions as ff
+    from hmf.density_field import transfer_models as tm, filters as flt
+    from hmf.cosmology import growth_factor as gfm
+    from hmf._internals._framework import get_base_components
+    MF = realfuzz.class_by_name("MassFunction")
+    base = dict(copy.deepcopy(realfuzz.BASE["MassFunction"]))
+
+    def regs():
+        return {kind.__name__: {nm: id(c) for nm, c in kind._plugins.items()} for kind in get_base_components() if hasattr(kind, "_plugins")}
+    saved = {kind: dict(kind._plugins) for kind in get_base_components() if hasattr(kind, "_plugins")}
+    try:
+        with warnings.catch_warnings():
+            warnings.simplefilter("ignore")
+            np.seterr(all="ignore")
+            builtin_t08 = ff.Tinker08
+
+            class Tinker08(ff.Tinker08):        # a user model shadowing a built-in name: from now on the *name* means this class
+                _defaults = dict(ff.Tinker08._defaults, A_200=0.25)
+
+            class VerifUserAbstractFit(ff.SMT, abstract=True):
+                pass
+            before = regs()
+            by_name_1 = MF(**dict(base, hmf_model="Tinker08", mdef_model="SOMean")).fsigma.copy()
+            script = ["class Tinker08(ff.Tinker08): _defaults = {..., 'A_200': 0.25}", "class VerifUserAbstractFit(ff.SMT, abstract=True): pass",
+                      "a = MassFunction(hmf_model='Tinker08', mdef_model='SOMean'); a.fsigma"]
+            steps = [("MassFunction(hmf_model=<built-in class Tinker08>)", lambda: MF(**dict(base, hmf_model=builtin_t08, mdef_model="SOMean")).fsigma),
+                     ("MassFunction(hmf_model=<abstract user class>)", lambda: MF(**dict(base, hmf_model=VerifUserAbstractFit)).fsigma),
+                     ("MassFunction(transfer_model=tm.EH_BAO, filter_model=flt.Gaussian, growth_model=gfm.Carroll1992)", lambda: MF(**dict(base, transfer_model=tm.EH_BAO, filter_model=flt.Gaussian, growth_model=gfm.Carroll1992)).sigma),
+                     ("o.update(hmf_model=ff.PS); o.clone(hmf_model=ff.Jenkins)", lambda: (lambda o: (o.update(hmf_model=ff.PS), o.clone(hmf_model=ff.Jenkins).fsigma))(MF(**base)))]
+            for label, f in steps:
+                try:
+                    f()
+                except Exception:
+                    pass
+                n += 1
+                script.append(label)
+                after = regs()
+                if after != before:
+                    d = []
+                    for kname in before:
+                        for nm in sorted(set(before[kname]) | set(after[kname])):
+                            if before[kname].get(nm) != after[kname].get(nm):
+                                d.append(f"{kname}._plugins[{nm!r}] " + ("added" if nm not in before[kname] else "removed" if nm not in after[kname] else "re-pointed to another class"))
+                    viol.append({"key": "registry/changed-by-instance-operation", "what": f"plugin registry changed by `{label}`: " + "; ".join(d[:4]), "replay": {"kind": "c11-program", "script": list(script)}})
+                    break
+            by_name_2 = MF(**dict(base, hmf_model="Tinker08", mdef_model="SOMean")).fsigma
+            n += 1
+            if not np.array_equal(by_name_1, by_name_2):
+                viol.append({"key": "registry/equal-arguments-diverge", "what": f"two MassFunction(hmf_model='Tinker08') built from equal arguments differ (max rel diff {float(np.nanmax(np.abs(by_name_2 / by_name_1 - 1))):.3g}) after other instances were built with models given as classes",
+                             "replay": {"kind": "c11-program", "script": script + ["b = MassFunction(hmf_model='Tinker08', mdef_model='SOMean'); b.fsigma != a.fsigma"]}})
+    finally:
+        for kind, d in saved.items():
+            kind._plugins.clear()
+            kind._plugins.update(d)
+    return viol, n
+
+
 def run(ctx):
     quick = ctx["tier"] == "quick"
     out = {"violations": [], "broken": [], "coverage": {}, "assumptions": [
@@ -318,6 +381,9 @@ def run(ctx):
     out["violations"] += cv
     av, narr = caller_arrays_scenario()
     out["violations"] += av
+    gv, nreg_ = registry_scenario()
+    out["violations"] += gv
+    narr += nreg_
     nprog = 40 if quick else 400
     tot, kinds = ncamb + narr, {}
     samples = []
@@ -334,7 +400,7 @@ def run(ctx):
     out["coverage"] = {
         "evaluations": tot + st["ops"], "programs": st["programs"] + nprog, "disagreements_checked": st["programs"],
         "traces_validated_against_impl": st["programs"], "distinct_nontrivial": nprog + st["programs"],
-        "rule": "heapcorr: random programs over 2-3 MassFunctionWDM instances (construction from shared caller dicts, update/assign, deepcopy/clone/pickle, caller-side mutation, component instantiation), identity partition + contents compared with the Lean heap model. snapshot oracle: random programs over all five classes with bystander snapshots after every operation; caller-owned k/T arrays of FromArray (3 tables; component and framework, two instances from the same arrays)",
+        "rule": "heapcorr: random programs over 2-3 MassFunctionWDM instances (construction from shared caller dicts, update/assign, deepcopy/clone/pickle, caller-side mutation, component instantiation), identity partition + contents compared with the Lean heap model. snapshot oracle: random programs over all five classes with bystander snapshots after every operation; caller-owned k/T arrays of FromArray (3 tables; component and framework, two instances from the same arrays); plugin registries under models given as class objects (built-in, abstract, name-shadowing user classes)",
         "heap": st, "read_purity_reads": npure, "snapshot_ops": tot, "snapshot_op_kinds": kinds, "samples": [st["sample"]] + samples,
         "search": "bystander-snapshot oracle on random multi-instance programs",
     }
